@@ -269,7 +269,7 @@ class Evaluator:
                 if not items_:
                     raise AbsRaise('IndexError', 'pop from empty list')
                 items_.pop(k_)
-                env[c.func.value.id] = AV('list', items=tuple(items_))
+                env[c.func.value.id] = self._fwd(cur, AV('list', items=tuple(items_)))
                 return
             if isinstance(c, ast.Call) and isinstance(c.func, ast.Attribute) and c.func.attr in ('append', 'extend', 'add', 'update') and \
                     isinstance(c.func.value, ast.Name) and c.func.value.id in env and env[c.func.value.id].kind == 'list' and \
@@ -279,11 +279,11 @@ class Evaluator:
                     raise Unknown('in-place change of a list that has two names')
                 v = self.ev(c.args[0], env)
                 if c.func.attr in ('append', 'add'):
-                    env[c.func.value.id] = AV('list', items=cur.items + (v,))
+                    env[c.func.value.id] = self._fwd(cur, AV('list', items=cur.items + (v,)))
                 else:
                     if v.items is None:
                         raise Unknown('extend with unknown contents')
-                    env[c.func.value.id] = AV('list', items=cur.items + tuple(v.items))
+                    env[c.func.value.id] = self._fwd(cur, AV('list', items=cur.items + tuple(v.items)))
                 return
             self.ev(st.value, env)
             return
@@ -313,7 +313,7 @@ class Evaluator:
                         raise Unknown('in-place change of a dict that has two names')
                     key_ = self.ev(t.slice, env)
                     kept_ = tuple(kv for kv in cur_.items if not self.eq(kv.items[0], key_))
-                    env[t.value.id] = AV('dict', items=kept_ + (AV('tuple', items=(key_, v)),))
+                    env[t.value.id] = self._fwd(cur_, AV('dict', items=kept_ + (AV('tuple', items=(key_, v)),)))
                 elif isinstance(t, ast.Subscript):
                     base = self.ev(t.value, env)
                     key = self.ev(t.slice, env)
@@ -447,6 +447,28 @@ class Evaluator:
             if is_gen:
                 self._yields.pop()
 
+    def _fwd(self, old: AV, new: AV) -> AV:
+        """an in-place change of a list / dict is a new value here; remember that `old` became `new`, so that a caller who passed
+        the object to a helper sees the change (reference semantics of arguments)"""
+        if not hasattr(self, 'forward'):
+            self.forward = {}
+        self.forward[id(old)] = (old, new)
+        return new
+
+    def _latest(self, v: AV) -> AV:
+        fw = getattr(self, 'forward', {})
+        seen = 0
+        while id(v) in fw and fw[id(v)][0] is v and seen < 10000:
+            v = fw[id(v)][1]
+            seen += 1
+        return v
+
+    def _write_back(self, node: ast.Call, env):
+        """after a call: names passed as arguments refer to the latest state of the object they named"""
+        for a in list(node.args) + [k.value for k in node.keywords]:
+            if isinstance(a, ast.Name) and a.id in env and env[a.id].kind in ('list', 'dict'):
+                env[a.id] = self._latest(env[a.id])
+
     def new_obj(self, cls: str, attrs: dict) -> AV:
         oid = len(self.heap) + 1
         self.heap[oid] = {'cls': cls, 'attrs': dict(attrs)}
@@ -574,6 +596,10 @@ class Evaluator:
             base = node.value
             # class references: datetime.date / datetime.datetime / self.EmptyCell / self.__class__
             txt = ast.unparse(node)
+            if isinstance(node.value, ast.Name) and node.value.id == 'operator' and node.attr in ('eq', 'ne', 'lt', 'le', 'gt', 'ge', 'add', 'sub'):
+                opn = {'eq': ast.Eq, 'ne': ast.NotEq, 'lt': ast.Lt, 'le': ast.LtE, 'gt': ast.Gt, 'ge': ast.GtE}.get(node.attr)
+                if opn is not None:
+                    return AV('func', val=('native', lambda a_, opn=opn: const_av(self.compare(opn(), a_[0], a_[1]))))
             if txt in getattr(self, 'text_attrs', {}):
                 return self.text_attrs[txt]
             cc = getattr(self, 'class_consts', {})
@@ -783,8 +809,10 @@ class Evaluator:
             return self.constructors[name]([self.ev(a, env) for a in node.args],
                                            {k.arg: self.ev(k.value, env) for k in node.keywords if k.arg})
         if name is not None and name not in env and name in self.functions:
-            return self.call_function(self.functions[name], [self.ev(a, env) for a in node.args],
+            res_ = self.call_function(self.functions[name], [self.ev(a, env) for a in node.args],
                                       {k.arg: self.ev(k.value, env) for k in node.keywords if k.arg})
+            self._write_back(node, env)
+            return res_
         if name == 'column_index_from_string' and len(node.args) == 1:
             v = self.ev(node.args[0], env)
             if not isinstance(v.val, str) or not v.val.isalpha() or not v.val:
@@ -943,13 +971,17 @@ class Evaluator:
             if isinstance(f.value, ast.Name) and f.value.id == 'cls' and f.attr in self.members:
                 args = [self.ev(a, env) for a in node.args]
                 kw_ = {k.arg: self.ev(k.value, env) for k in node.keywords if k.arg}
-                return self.call_method(f.attr, args, env.get('cls'), kw_)
+                res_ = self.call_method(f.attr, args, env.get('cls'), kw_)
+                self._write_back(node, env)
+                return res_
             if isinstance(f.value, ast.Name) and f.value.id == 'self':
                 args = [self.ev(a, env) for a in node.args]
                 kw_ = {k.arg: self.ev(k.value, env) for k in node.keywords if k.arg}
                 pref = getattr(self, 'prefix', '')
                 target = pref + f.attr if (pref + f.attr) in self.members or (pref + f.attr) in self.hooks else f.attr
-                return self.call_method(target, args, env.get('self'), kw_)
+                res_ = self.call_method(target, args, env.get('self'), kw_)
+                self._write_back(node, env)
+                return res_
             txt = ast.unparse(f)
             if txt == 'datetime.timedelta':
                 kw = {k.arg: self.ev(k.value, env) for k in node.keywords}
